@@ -64,9 +64,64 @@ def chunkOut (h : String) (cutspec : String) : String :=
          (if b = raw then "same" else "cut" ++ toString (cuts.headD 0) ++ ":" ++ b.enc))
     "one=" ++ one ++ " wl=" ++ wl.enc ++ " wlc=" ++ wlc ++ " raw=" ++ raw.enc ++ " rawc=" ++ rawc
 
+/-! ## `seq <hex>.<hex>… <all|k1,k2,..>`: several documents through one decoder instance -/
+
+def encList (l : List Out) : String := if l.isEmpty then "-" else "|".intercalate (l.map Out.enc)
+
+/-- The harness' `wl_seq`: the frames back to back, the stream cut at `cuts`. -/
+def wlSeqOf (docs : List (List Nat)) (cuts : List Nat) : List Out :=
+  wlSeq {} [] (splitAtCuts (docs.flatMap fun d => be8 d.length ++ d) cuts)
+
+/-- The harness' `bare_seq`: `cuts` index the concatenation of the documents. -/
+def bareSeqOf (docs : List (List Nat)) (cuts : List Nat) : List Out :=
+  let rec pieces (off : Nat) (ds : List (List Nat)) : List (List (List Nat)) :=
+    match ds with
+    | [] => []
+    | d :: ds' =>
+      splitAtCuts d ((cuts.filter fun c => off < c ∧ c < off + d.length).map (· - off)) :: pieces (off + d.length) ds'
+  rawSeqB {} (pieces 0 docs)
+
+/-- The harness' `differs`: positions whose document is not UTF-8 do not count. -/
+def seqDiffers (valid : List Bool) (a b : List Out) : Bool :=
+  a.length != b.length ||
+    ((List.range a.length).any fun i => valid.getD i true && a.getD i .none != b.getD i .none)
+
+def firstDiffSeq (valid : List Bool) (f : List Nat → List Out) (whole : List Out) (len : Nat) : Nat → Nat → String
+  | 0, _ => "same"
+  | fuel + 1, k =>
+    if k < len then
+      (if seqDiffers valid (f [k]) whole then "cut" ++ toString k ++ ":" ++ encList (f [k])
+       else firstDiffSeq valid f whole len fuel (k + 1))
+    else "same"
+
+def seqOut (hs : String) (cutspec : String) : String :=
+  match (hs.splitOn ".").mapM bytesOfHex with
+  | none => "bad-op"
+  | some docs =>
+    let valid := docs.map fun d => (charsOfBytes d).isSome
+    let one : List String := docs.map fun d => match charsOfBytes d with
+      | some cs => (parseOne cs).enc
+      | none => "err"
+    let wl := wlSeqOf docs []
+    let raw := bareSeqOf docs []
+    let total := (docs.map List.length).sum
+    let (wlc, rawc) :=
+      if cutspec == "all" then
+        (firstDiffSeq valid (wlSeqOf docs) wl (total + 8 * docs.length) (total + 8 * docs.length) 1,
+         firstDiffSeq valid (bareSeqOf docs) raw total total 1)
+      else
+        let cuts := (cutspec.splitOn ",").filterMap String.toNat?
+        let a := wlSeqOf docs cuts
+        let b := bareSeqOf docs cuts
+        ((if seqDiffers valid a wl then "cut" ++ toString (cuts.headD 0) ++ ":" ++ encList a else "same"),
+         (if seqDiffers valid b raw then "cut" ++ toString (cuts.headD 0) ++ ":" ++ encList b else "same"))
+    "one=" ++ (if one.isEmpty then "-" else "|".intercalate one) ++ " wl=" ++ encList wl ++ " wlc=" ++ wlc ++
+      " raw=" ++ encList raw ++ " rawc=" ++ rawc
+
 def apiLine (line : String) : String :=
   match words line with
   | ["chunk", h, cs] => chunkOut h cs
+  | ["seq", hs, cs] => seqOut hs cs
   | _ => Recon.apiLine line
 
 end SwimVerif.ReconInc
